@@ -373,7 +373,7 @@ def make_machine(tier, hooks):
                       'on': on, 'og': og, 'oo': oo})
 
         @rule(c=I, roots=st.lists(I, min_size=1, max_size=2), grow=st.lists(I, max_size=4),
-              form=st.sampled_from(['dnf', 'rm']), label_mode=st.sampled_from(['fresh', 'same_boundary']),
+              form=st.sampled_from(['dnf', 'rm', 'chain']), label_mode=st.sampled_from(['fresh', 'same_boundary']),
               drop=st.integers(0, 9), seed=I)
         def replace_subcircuit(self, c, roots, grow, form, label_mode, drop, seed):
             self._do({'op': 'replace_subcircuit', 'c': c, 'roots': roots, 'grow': grow, 'form': form,
